@@ -429,18 +429,29 @@ class Check:
         self.coverage['obligations'] = len(names) + 2
         discharged = 0
         self.coverage['checker_cmd'] = b['cmd']
-        self.build_ok = b['ok'] and not b['gen_failed']
-        for gf in b['gen_failed']:
+        # A translation item that fails is OMITTED from its Gen file (fail
+        # closed): every theorem that mentions it then fails to build, which
+        # is what breaks the properties it belongs to - and only those.  A
+        # crash of the translator as a whole breaks every property.
+        fatal = [gf for gf in b['gen_failed'] if gf['item'] == 'translator']
+        self.coverage['gen_items_not_translated'] = [
+            f"{gf['item']}: {gf['reason']}"[:300] for gf in b['gen_failed']]
+        self.build_ok = b['ok'] and not fatal
+        for gf in fatal:
             self.broken.append({'obligation': f"T1 translation of "
                                 f"{gf['item']}", 'why': gf['reason']})
-        if not b['gen_failed']:
-            discharged += 1            # obligation: translation succeeded
+        if not fatal:
+            discharged += 1            # obligation: translator ran
         if not b['ok']:
             m = re.search(r'File "([^"]+)", line (\d+)[^\n]*\n(.*?)(?=\nmake|'
                           r'\Z)', b['log'], re.S)
             where = f"{m.group(1)}:{m.group(2)}" if m else "?"
             msg = (m.group(3).strip()[:600] if m else b['log'][-600:])
             thm = self._theorem_at(m.group(1), int(m.group(2))) if m else None
+            if b['gen_failed']:
+                msg += " || not translated from the source: " + "; ".join(
+                    f"{gf['item']} ({gf['reason']})"
+                    for gf in b['gen_failed'])[:900]
             self.broken.append({'obligation': f"coq build ({where}"
                                 + (f", in {thm}" if thm else "") + ")",
                                 'why': msg})
